@@ -57,6 +57,15 @@ def shape_vars(shape, p):
             vs.update(a)
             pre += b
         return vs, pre
+    if k == "timestamp":
+        # every UTC instant of 0001..9999 at microsecond resolution, displayed at every whole-minute offset (time model: vf/sym/times.py)
+        from ..sym import times as T
+        e, o = z3.Int(f"{p}_e"), z3.Int(f"{p}_o")
+        return {f"{p}_e": e, f"{p}_o": o}, [e >= T.MIN_L, e <= T.MAX_L, o >= -840, o <= 840, e + o * 60 * T.US >= T.MIN_L, e + o * 60 * T.US <= T.MAX_L]
+    if k == "duration":
+        from ..sym import times as T
+        d = z3.Int(p)
+        return {p: d}, [d >= -315576000000 * T.US, d <= 315576000000 * T.US]
     if k in ("null", "const"):
         return {}, []
     raise ValueError(shape)
@@ -120,6 +129,12 @@ def build(shape, p, vals):
         return ct.ListType([build(s, f"{p}_{i}", vals) for i, s in enumerate(shape[1])])
     if k == "map":
         return ct.MapType({_const_value(kj): build(s, f"{p}_v{i}", vals) for i, (kj, s) in enumerate(shape[1])})
+    if k == "timestamp":
+        from ..sym import times as T
+        return ct.TimestampType(T.make_datetime(mk(SInt, z3.Int(f"{p}_e"), vals[f"{p}_e"]), mk(SInt, z3.Int(f"{p}_o"), vals[f"{p}_o"])))
+    if k == "duration":
+        from ..sym import times as T
+        return ct.DurationType(T.make_timedelta(mk(SInt, z3.Int(p), vals[p])))
     if k == "null":
         return None
     if k == "const":
@@ -144,6 +159,10 @@ def to_json(shape, p, vals):
         return {"t": "list", "v": [to_json(s, f"{p}_{i}", vals) for i, s in enumerate(shape[1])]}
     if k == "map":
         return {"t": "map", "v": [[kj, to_json(s, f"{p}_v{i}", vals)] for i, (kj, s) in enumerate(shape[1])]}
+    if k == "timestamp":
+        return {"t": "timestamp", "us": enc(vals[f"{p}_e"]), "off": vals[f"{p}_o"]}
+    if k == "duration":
+        return {"t": "duration", "us": enc(vals[p])}
     if k == "null":
         return {"t": "null"}
     if k == "const":
@@ -195,6 +214,13 @@ def scalar_term(shape, p):
     raise ValueError(shape)
 
 
+def _time_term(shape, p):
+    """UTC instant / length in microseconds"""
+    if shape[0] == "const":
+        return z3.IntVal(shape[1]["us"])
+    return z3.Int(f"{p}_e") if shape[0] == "timestamp" else z3.Int(p)
+
+
 def ref_eq(sa, pa, sb, pb):
     """CEL equality of two same-type shaped values as a z3 Bool (None if the shapes are of different CEL types)"""
     ka, kb = cel_type(sa), cel_type(sb)
@@ -212,7 +238,7 @@ def ref_eq(sa, pa, sb, pb):
     if ka == "null":
         return z3.BoolVal(True)
     if ka in ("timestamp", "duration"):
-        return z3.BoolVal(sa[1]["us"] == sb[1]["us"])  # concrete instants / lengths (same instant whatever the written offset)
+        return _time_term(sa, pa) == _time_term(sb, pb)  # same instant whatever the written offset / same length
     if ka == "list":
         if len(sa[1]) != len(sb[1]):
             return z3.BoolVal(False)
@@ -252,7 +278,7 @@ def ref_lt(sa, pa, sb, pb):
         from ..sym.strs import lt_term
         return lt_term(_terms(sa, pa), _terms(sb, pb), True)
     if ka in ("timestamp", "duration"):
-        return z3.BoolVal(sa[1]["us"] < sb[1]["us"])
+        return _time_term(sa, pa) < _time_term(sb, pb)
     return None
 
 
